@@ -39,6 +39,7 @@ Section Run.
         else if is (U"checkformat_delegation") then unit_res (checkformat_delegation a)
         else if is (U"checkformat_delegations") then unit_res (checkformat_delegations a)
         else if is (U"checkformat_delegating_metadata") then unit_res (checkformat_delegating_metadata a)
+        else if is (U"checkformat_key") then unit_res (checkformat_key a)
         else if is (U"canonserialize") then (b <- canonserialize a ;; Ok (VBytes b))
         else if is (U"sha256") then match a with VBytes b => Ok (VBytes (sha256 b)) | _ => Unmodelled end
         else if is (U"wrap_as_signable") then wrap_as_signable a
